@@ -172,3 +172,134 @@ theorem sorted_split_facts (pre : List SplinePoint) (a b : SplinePoint) (post : 
   exact ⟨f.raw, (lastPt f l').raw, hmin, hmax, hfa, hge b hb, m2, m1, fun p hp => ⟨hlo p hp, hge p hp⟩⟩
 
 end Spp
+
+namespace Spp
+
+theorem strictSorted_cons_iff (a : SplinePoint) (l : List SplinePoint) :
+    StrictSorted (a :: l) ↔ (∀ x ∈ l, a.raw < x.raw) ∧ StrictSorted l := by
+  constructor
+  · intro h; exact ⟨StrictSorted.head_lt h, StrictSorted.tail h⟩
+  · intro ⟨h1, h2⟩
+    cases l with
+    | nil => trivial
+    | cons b rest => exact ⟨h1 b (by simp), h2⟩
+
+theorem mem_insertPoint (p x : SplinePoint) (l : List SplinePoint) : x ∈ insertPoint p l ↔ x = p ∨ x ∈ l := by
+  induction l with
+  | nil => simp [insertPoint]
+  | cons q qs ih =>
+    unfold insertPoint
+    split
+    · simp
+    · simp [ih]; constructor
+      · rintro (h | h | h) <;> simp [h]
+      · rintro (h | h | h) <;> simp [h]
+
+theorem insertPoint_sorted (p : SplinePoint) (l : List SplinePoint) (hs : StrictSorted l)
+    (hne : ∀ q ∈ l, q.raw ≠ p.raw) : StrictSorted (insertPoint p l) := by
+  induction l with
+  | nil => trivial
+  | cons q qs ih =>
+    unfold insertPoint
+    split
+    · rename_i hlt
+      exact ⟨hlt, hs⟩
+    · rename_i hlt
+      rw [strictSorted_cons_iff] at hs ⊢
+      refine ⟨?_, ih hs.2 (fun x hx => hne x (by simp [hx]))⟩
+      intro x hx
+      rw [mem_insertPoint] at hx
+      rcases hx with rfl | hx
+      · have := hne q (by simp); grind
+      · exact hs.1 x hx
+
+/-- The constructor's `sorted(points, key=raw)`: for points with pairwise distinct raw coordinates the stored list is
+    strictly increasing and has exactly the given points. -/
+theorem sortPoints_sorted (ps : List SplinePoint) (hd : (ps.map (·.raw)).Nodup) :
+    StrictSorted (sortPoints ps) ∧ ∀ x, x ∈ sortPoints ps ↔ x ∈ ps := by
+  unfold sortPoints
+  have key : ∀ (ps acc : List SplinePoint), StrictSorted acc → ((acc ++ ps).map (·.raw)).Nodup →
+      StrictSorted (ps.foldl (fun acc p => insertPoint p acc) acc) ∧
+      ∀ x, x ∈ ps.foldl (fun acc p => insertPoint p acc) acc ↔ x ∈ acc ∨ x ∈ ps := by
+    intro ps
+    induction ps with
+    | nil => intro acc hs _; simp [hs]
+    | cons p rest ih =>
+      intro acc hs hnd
+      simp only [List.foldl_cons]
+      have hne : ∀ q ∈ acc, q.raw ≠ p.raw := by
+        intro q hq heq
+        simp only [List.map_append, List.map_cons] at hnd
+        rw [List.nodup_append] at hnd
+        exact hnd.2.2 q.raw (List.mem_map.mpr ⟨q, hq, rfl⟩) p.raw (by simp) heq
+      have hs' := insertPoint_sorted p acc hs hne
+      have hnd' : ((insertPoint p acc ++ rest).map (·.raw)).Nodup := by
+        have hperm : (insertPoint p acc ++ rest).Perm (acc ++ p :: rest) := by
+          have h1 : (insertPoint p acc).Perm (p :: acc) := by
+            clear hs hnd hne hs' ih
+            induction acc with
+            | nil => simp [insertPoint]
+            | cons q qs ih2 =>
+              unfold insertPoint
+              split
+              · exact List.Perm.refl _
+              · exact (List.Perm.cons q ih2).trans (List.Perm.swap p q qs)
+          exact (List.Perm.append_right rest h1).trans (by simpa using List.perm_middle.symm)
+        exact (List.Perm.nodup_iff (hperm.map _)).mpr hnd
+      obtain ⟨i1, i2⟩ := ih (insertPoint p acc) hs' hnd'
+      refine ⟨i1, ?_⟩
+      intro x
+      rw [i2 x, mem_insertPoint]
+      simp only [List.mem_cons]
+      constructor
+      · rintro ((h | h) | h)
+        · exact Or.inr (Or.inl h)
+        · exact Or.inl h
+        · exact Or.inr (Or.inr h)
+      · rintro (h | h | h)
+        · exact Or.inl (Or.inr h)
+        · exact Or.inl (Or.inl h)
+        · exact Or.inr h
+  have := key ps [] trivial (by simpa using hd)
+  exact ⟨this.1, fun x => by simpa using this.2 x⟩
+
+end Spp
+
+namespace Spp
+
+theorem insertPoint_append (p : SplinePoint) (acc : List SplinePoint) (h : ∀ q ∈ acc, q.raw < p.raw) :
+    insertPoint p acc = acc ++ [p] := by
+  induction acc with
+  | nil => rfl
+  | cons q qs ih =>
+    unfold insertPoint
+    have hq := h q (by simp)
+    rw [if_neg (by grind), ih (fun x hx => h x (by simp [hx]))]
+    rfl
+
+/-- Sorting an already strictly increasing point list leaves it as it is (so re-loading a written spline keeps its points). -/
+theorem sortPoints_of_sorted (l : List SplinePoint) (h : StrictSorted l) : sortPoints l = l := by
+  unfold sortPoints
+  have key : ∀ (l acc : List SplinePoint), StrictSorted (acc ++ l) →
+      l.foldl (fun acc p => insertPoint p acc) acc = acc ++ l := by
+    intro l
+    induction l with
+    | nil => intro acc _; simp
+    | cons p rest ih =>
+      intro acc hs
+      simp only [List.foldl_cons]
+      have hlt : ∀ q ∈ acc, q.raw < p.raw := by
+        intro q hq
+        clear ih
+        induction acc with
+        | nil => simp at hq
+        | cons a as iha =>
+          simp at hq
+          rcases hq with rfl | hq
+          · exact StrictSorted.head_lt hs p (by simp)
+          · exact iha (StrictSorted.tail hs) hq
+      rw [insertPoint_append p acc hlt, ih (acc ++ [p]) (by simpa using hs)]
+      simp
+  simpa using key l [] (by simpa using h)
+
+end Spp
